@@ -112,6 +112,7 @@ PROPS["C01"] = {
     "assumptions": ["the harness's reading of which proto shapes are oneof wrappers / exposed oneofs / flattened (j5ref) matches the documented annotations"],
     "lanes": [
         lane("TestRaw", "raw", 1500, 6000, shards=16, must_classes=["msg:exposed-oneof-set", "msg:wrapper-oneof-set", "msg:map-of-messages", "schema:flatten", "schema:any"]),
+        lane("TestCompiled", "compiled", 250, 2000, shards=16),
     ],
 }
 
@@ -132,6 +133,7 @@ PROPS["C08"] = {
     "lanes": [
         lane("TestRaw", "raw", 1500, 6000, shards=16, must_classes=["msg:exposed-oneof-set", "msg:wrapper-oneof-set", "schema:flatten", "schema:any"]),
         lane("TestExtended", "extended", 600, 3000, shards=8, must_classes=["msg:non-finite-float", "msg:out-of-range-date"]),
+        lane("TestCompiled", "compiled", 250, 2000, shards=16),
     ],
 }
 
@@ -175,8 +177,11 @@ PROPS["C03"] = {
     "assumptions": ["README 'Scalar Types': all number types (ints, floats, decimal) may be quoted or unquoted; base64 URL or standard, with or without padding"],
     "lanes": [
         lane("TestSpelling", "spelling", 800, 4000, shards=16, must_classes=["var:bare-int64", "var:base64-url", "var:enum-with-prefix", "var:timestamp-offset", "var:explicit-null", "var:reorder"]),
-        lane("TestFault", "fault", 800, 4000, shards=16, must_classes=["fault:two-keys-in-oneof", "fault:type-contradicts-key", "fault:unknown-key", "pos:array-element", "pos:map-value", "pos:oneof-arm"]),
+        lane("TestFault", "fault", 800, 4000, shards=16, must_classes=["fault:two-keys-in-oneof", "fault:type-contradicts-key", "fault:type-contradicts-key:type-last", "fault:unknown-key", "pos:array-element", "pos:map-value", "pos:oneof-arm"]),
         lane("TestQuery", "query", 1500, 6000, shards=8, must_classes=["nested-path", "scalar-array"]),
+        lane("TestSpellingCompiled", "spelling-j5s", 200, 1500, shards=16),
+        lane("TestFaultCompiled", "fault-j5s", 200, 1500, shards=16),
+        lane("TestQueryCompiled", "query-j5s", 200, 1500, shards=8),
     ],
 }
 
@@ -288,7 +293,7 @@ PROPS["C13"] = {
              "last of its file. Distinct by hash(final sources, edit kinds)."),
     "assumptions": [],
     "lanes": [
-        lane("TestAppend", "append", 150, 800, shards=16, must_classes=["not-last-in-file", "edit:option-to-enum", "edit:field-to-object", "edit:declaration-to-file"]),
+        lane("TestAppend", "append", 150, 800, shards=16, must_classes=["not-last-in-file", "edit:option-to-enum", "edit:field-to-object", "edit:declaration-to-file", "name:shadows-top-level-type", "name:sorts-first"]),
     ],
 }
 
